@@ -109,6 +109,32 @@ fn gen_aabb(r: &mut Rng, lat: bool) -> Aabb {
 fn gen_eps(r: &mut Rng, lat: bool) -> f64 {
     if lat { *r.pick(&[0.0, 0.0, 0.25, 0.5, 1.0, 0.125]) } else { *r.pick(&[0.0, 1e-9, 1e-6, 1e-3, 0.1]) }
 }
+/// unit normals: canonical axes (both signs, with signed zeros), Pythagorean, normalised diagonals, random
+fn unit3(r: &mut Rng, lat: bool) -> V3 {
+    if lat {
+        match r.below(4) {
+            0 => { let mut v = V3::zeros(); v[r.below(3) as usize] = if r.bool() { 1.0 } else { -1.0 }; v }
+            1 => { let mut v = V3::new(-0.0, 0.0, -0.0); v[r.below(3) as usize] = 1.0; v }
+            2 => *r.pick(&[V3::new(0.6, 0.8, 0.0), V3::new(0.0, -0.6, 0.8), V3::new(-0.8, 0.0, 0.6), V3::new(0.28, 0.96, 0.0),
+                           V3::new(2.0 / 3.0, 2.0 / 3.0, 1.0 / 3.0), V3::new(3.0 / 13.0, 4.0 / 13.0, 12.0 / 13.0)]),
+            _ => *r.pick(&[V3::new(1.0, 1.0, 0.0).normalize(), V3::new(1.0, -1.0, 1.0).normalize(), V3::new(0.0, 1.0, -1.0).normalize()]),
+        }
+    } else { loop { let v = d3::gen_v(r, false, 1.0); if v.norm() > 0.1 { return v.normalize(); } } }
+}
+/// convex planar polygon: triangle, parallelogram or affine hexagon on lattice / random vectors
+fn gen_poly(r: &mut Rng, lat: bool, s: f64) -> Vec<P3> {
+    let p = d3::gen_p(r, lat, s);
+    let (u, v) = loop { let u = d3::gen_v(r, lat, s); let v = d3::gen_v(r, lat, s); if u.cross(&v).norm() > 1e-3 { break (u, v); } };
+    let mut pts = match r.below(4) {
+        0 => vec![p, p + u, p + v],
+        1 => vec![p, p + u, p + u + v, p + v],
+        2 => vec![p + u, p + u + v, p + v, p - u, p - u - v, p - v],
+        _ => vec![p, p + u * 2.0, p + u * 2.0 + v, p + u + v * 2.0, p + v * 2.0],
+    };
+    if r.bool() { pts.reverse(); }
+    let k = r.below(pts.len() as u64) as usize; pts.rotate_left(k);
+    pts
+}
 
 pub fn gen(r: &mut Rng, thorough: bool) -> Vec<(String, String)> {
     let n = if thorough { 5000 } else { 500 };
@@ -124,6 +150,113 @@ pub fn gen(r: &mut Rng, thorough: bool) -> Vec<(String, String)> {
             4 => x.mins[axis] + (x.maxs[axis] - x.mins[axis]) * *r.pick(&[0.25, 0.5, 0.75, -0.25, 1.25]),
             _ => r.coord(lat, 60.0) };
         v.push(("aabb_split".into(), format!("{} {} {} {}", haabb(&x), axis, hx(bias), hx(eps))));
+
+        // ---- Segment split: plane through an end point, through the middle, within epsilon of an end, parallel, beyond
+        for _ in 0..2 {
+            let a = d3::gen_p(r, lat, 10.0);
+            let nrm = unit3(r, lat);
+            let b = match r.below(8) {
+                0 => a, // degenerate segment
+                1 => { // parallel to the plane
+                    let t = nrm.cross(&d3::gen_v(r, lat, 4.0)); a + t }
+                2 => a + nrm * *r.pick(&[0.5, 1.0, -2.0, 4.0]),
+                _ => d3::gen_p(r, lat, 10.0) };
+            let eps = gen_eps(r, lat);
+            let sa = nrm.dot(&a.coords); let sb = nrm.dot(&b.coords);
+            let bias = match r.below(10) {
+                0 => sa, 1 => sb, 2 => (sa + sb) * 0.5, 3 => sa + eps, 4 => sb - eps, 5 => sa - eps * 0.5, 6 => sb + eps * 0.5,
+                7 => sa + (sb - sa) * *r.pick(&[0.25, 0.75, -0.5, 1.5, 0.125]),
+                8 => sa.min(sb) - 1.0,
+                _ => r.coord(lat, 12.0) };
+            v.push(("seg_split".into(), format!("{} {} {} {} {}", d3::hp(&a), d3::hp(&b), d3::hv(&nrm), hx(bias), hx(eps))));
+        }
+
+        // ---- Aabb difference: nested, containing, shifted, touching, disjoint, equal
+        let x = gen_aabb(r, lat);
+        let e = x.maxs - x.mins;
+        let y = match r.below(8) {
+            0 => x,
+            1 => { let s = d3::gen_v(r, true, 1.0); Aabb::new(x.mins + s, x.maxs + s) }
+            2 => { let mut s = V3::zeros(); let k = r.below(3) as usize; s[k] = if r.bool() { e[k] } else { -e[k] }; Aabb::new(x.mins + s, x.maxs + s) } // touching
+            3 => Aabb::new(x.mins + e * 0.25, x.maxs - e * 0.25), // nested
+            4 => Aabb::new(x.mins - e * 0.5, x.maxs + e * 0.5),   // containing
+            5 => { // partial overlap per axis from a menu
+                let mut mins = x.mins; let mut maxs = x.maxs;
+                for k in 0..3 { let (lo, hi) = *r.pick(&[(-0.5, 0.5), (0.5, 1.5), (0.25, 0.75), (-0.5, 1.5), (0.0, 1.0), (0.0, 0.5), (0.5, 1.0), (1.0, 2.0), (-1.0, 0.0)]);
+                    mins[k] = x.mins[k] + e[k] * lo; maxs[k] = x.mins[k] + e[k] * hi; }
+                Aabb::new(mins, maxs) }
+            _ => gen_aabb(r, lat) };
+        v.push(("aabb_diff".into(), format!("{} {}", haabb(&x), haabb(&y))));
+
+        // ---- clip_aabb_line & co: origin inside/outside/on a face, axis-aligned / diagonal / generic / zero directions
+        for _ in 0..2 {
+            let x = gen_aabb(r, lat);
+            let e = x.maxs - x.mins;
+            let c = x.mins + e * 0.5;
+            let o = match r.below(6) {
+                0 => c,
+                1 => x.mins + e.component_mul(&V3::new(*r.pick(&[0.0, 0.5, 1.0]), *r.pick(&[0.0, 0.5, 1.0]), *r.pick(&[0.0, 0.25, 1.0]))),
+                2 => x.mins + e.component_mul(&V3::new(*r.pick(&[-1.0, 0.5, 2.0]), *r.pick(&[-0.5, 0.5, 1.5]), *r.pick(&[-1.0, 0.0, 0.5, 2.0]))),
+                3 => { let k = *r.pick(&[1.0, 2.0, -1.0, -3.0, 0.5]); x.mins - V3::new(k, k, k) } // on the main diagonal through `mins`
+                _ => d3::gen_p(r, lat, 60.0) };
+            let d = match r.below(8) {
+                0 => V3::zeros(),
+                1 => { let mut d = V3::new(0.0, -0.0, 0.0); d[r.below(3) as usize] = *r.pick(&[1.0, -1.0, 2.0, -0.5, 1e-3, 1e3]); d }
+                2 => V3::new(1.0, 1.0, 1.0) * *r.pick(&[1.0, -1.0, 0.5, 3.0]),
+                3 => { let mut d = V3::new(*r.pick(&[1.0, -1.0, 2.0]), *r.pick(&[1.0, -1.0, 0.5]), *r.pick(&[1.0, -2.0])); d[r.below(3) as usize] = 0.0; d }
+                4 => (c - o) * *r.pick(&[1.0, -1.0, 0.5, 2.0, 0.125]), // through the centre (or away from it)
+                5 => (x.maxs - o) * *r.pick(&[1.0, -1.0, 0.5, 2.0]),   // through a vertex
+                _ => { let s = if lat { 1.0 } else { r.logu(1e-3, 1e3) }; d3::gen_v(r, lat, 2.0) * s } };
+            let args = format!("{} {} {}", haabb(&x), d3::hp(&o), d3::hv(&d));
+            for f in ["clip_line", "clip_line_params", "clip_ray_params"] { v.push((f.to_string(), args.clone())); }
+            // segment: [o, o + d] and variants that stop short of / start beyond the box
+            let pb = o + d;
+            v.push(("clip_seg".into(), format!("{} {} {}", haabb(&x), d3::hp(&o), d3::hp(&pb))));
+            let pa2 = d3::gen_p(r, lat, 8.0); let pb2 = d3::gen_p(r, lat, 8.0);
+            let x2 = if lat { Aabb::new(P3::new(-2.0, -1.0, -1.5), P3::new(1.0, 2.0, 1.5)) } else { Aabb::new(P3::new(-3.0, -2.0, -4.0), P3::new(2.5, 3.0, 1.0)) };
+            v.push(("clip_seg".into(), format!("{} {} {}", haabb(&x2), d3::hp(&pa2), d3::hp(&pb2))));
+        }
+
+        // ---- half-space / box clipping of convex planar polygons
+        for _ in 0..2 {
+            let poly = gen_poly(r, lat, 4.0);
+            let nrm = if r.below(3) == 0 { d3::gen_v(r, lat, 3.0) } else { unit3(r, lat) };
+            let nrm = if nrm.norm() == 0.0 { V3::new(0.0, 1.0, 0.0) } else { nrm };
+            let k = r.below(poly.len() as u64) as usize;
+            let c = match r.below(5) {
+                0 => poly[k],                                             // plane through a vertex
+                1 => P3::from((poly[k].coords + poly[(k + 1) % poly.len()].coords) * 0.5), // through an edge mid-point
+                2 => P3::from(poly.iter().fold(V3::zeros(), |s, p| s + p.coords) / poly.len() as f64), // through the centroid
+                3 => poly[k] + nrm * *r.pick(&[10.0, -10.0]),             // all kept / none kept
+                _ => d3::gen_p(r, lat, 4.0) };
+            // plane containing an edge: normal orthogonal to it
+            let nrm = if r.below(6) == 0 { let e = poly[(k + 1) % poly.len()] - poly[k]; let t = e.cross(&d3::gen_v(r, lat, 2.0)); if t.norm() > 0.0 { t } else { nrm } } else { nrm };
+            v.push(("clip_hs_poly".into(), format!("{} {} {}", d3::hp(&c), d3::hv(&nrm), hpts(&poly))));
+            if it % 16 == 0 { v.push(("clip_hs_poly".into(), format!("{} {} 0", d3::hp(&c), d3::hv(&nrm)))); }
+            let x = match r.below(4) {
+                0 => { let he = d3::gen_he(r, lat); Aabb::new(poly[k] - he, poly[k] + he) }      // box centred on a vertex
+                1 => Aabb::new(P3::new(-100.0, -100.0, -100.0), P3::new(100.0, 100.0, 100.0)),  // contains everything
+                2 => { let he = d3::gen_he(r, lat); let c = P3::from(poly.iter().fold(V3::zeros(), |s, p| s + p.coords) / poly.len() as f64); Aabb::new(c - he, c + he) }
+                _ => gen_aabb(r, lat) };
+            v.push(("clip_poly".into(), format!("{} {}", haabb(&x), hpts(&poly))));
+        }
+
+        // ---- clip_segment_segment (2-D)
+        for _ in 0..2 {
+            let a1 = d2::gen_p(r, lat, 8.0);
+            let t = loop { let t = d2::gen_v(r, lat, 4.0); if t.norm() > 0.0 { break t; } };
+            let b1 = a1 + t;
+            let nrm = d2::Vector::new(-t.y, t.x);
+            let off = nrm * if lat { *r.pick(&[0.0, 0.25, -0.5, 1.0]) } else { r.uniform(-1.0, 1.0) };
+            let (s0, s1) = match r.below(7) {
+                0 => (0.0, 1.0), 1 => (0.25, 0.75), 2 => (-0.5, 0.5), 3 => (0.5, 1.5), 4 => (1.0, 2.0), 5 => (1.25, 2.0),
+                _ => (r.coord(lat, 2.0) * 0.5, r.coord(lat, 2.0) * 0.5) };
+            let tilt = if r.below(3) == 0 { nrm * if lat { 0.125 } else { r.uniform(-0.2, 0.2) } } else { d2::Vector::zeros() };
+            let (mut a2, mut b2) = (a1 + t * s0 + off, a1 + t * s1 + off + tilt);
+            if r.bool() { core::mem::swap(&mut a2, &mut b2); }
+            if r.below(8) == 0 { a2 = d2::gen_p(r, lat, 8.0); b2 = d2::gen_p(r, lat, 8.0); }
+            v.push(("clip_seg_seg".into(), format!("{} {} {} {}", d2::hp(&a1), d2::hp(&b1), d2::hp(&a2), d2::hp(&b2))));
+        }
     }
     v
 }
